@@ -58,21 +58,25 @@ func init() {
 	// unwritable NAME t vhex now : a file the process may read but not write (mode 0444; the
 	// effective uid is dropped while it runs as root).  Whatever Open, the update and Sync
 	// acknowledge must be what a later handle reads (C05); refusing to open is fine.
-	register("unwritable", func(s *sess, tk []string) {
+	// rosync NAME t vhex now : the same through a handle opened with the read-only flag option
+	// (the file itself stays writable)
+	unwritable := func(s *sess, tk []string) {
 		f := s.file(tk[1])
 		t, v, now := wt.Timestamp(atoi(tk[2])), hexv(tk[3]), wt.Timestamp(atoi(tk[4]))
 		if f.db != nil {
 			f.db.Close()
 			f.db = nil
 		}
-		must(os.Chmod(f.path, 0444))
+		if tk[0] == "unwritable" {
+			must(os.Chmod(f.path, 0444))
+		}
 		type saved struct {
 			dir  string
 			mode os.FileMode
 		}
 		var restore []saved
 		dropped := false
-		if os.Geteuid() == 0 {
+		if os.Geteuid() == 0 && tk[0] == "unwritable" {
 			for _, d := range []string{s.root, filepath.Dir(s.root)} {
 				if st, err := os.Stat(d); err == nil && st.Mode().Perm()&0011 != 0011 {
 					if os.Chmod(d, st.Mode().Perm()|0011) == nil {
@@ -83,7 +87,11 @@ func init() {
 			dropped = syscall.Seteuid(65534) == nil
 		}
 		acked, live := false, ""
-		db, err := wt.Open(f.path)
+		var opts []wt.Option
+		if tk[0] == "rosync" {
+			opts = append(opts, wt.WithOpenFileFlag(os.O_RDONLY))
+		}
+		db, err := wt.Open(f.path, opts...)
 		if err == nil {
 			e1 := db.UpdatePointForArchive(wt.ArchiveIDBest, t, v, now)
 			e2 := db.Sync()
@@ -105,8 +113,10 @@ func init() {
 			durable = fetchAll(db2, now) == live
 			db2.Close()
 		}
-		s.obs("unwritable durable=%v", durable)
-	})
+		s.obs("%s durable=%v", tk[0], durable)
+	}
+	register("unwritable", unwritable)
+	register("rosync", unwritable)
 	// reuse PRODUCER m xff k s n ... | j item ... : a header built from ArchiveInfo values that were
 	// already part of another list (item "o<i>": element i of the first list, as left behind by
 	// NewHeader, by the retention parser or by a created and reopened file; item "n<s>:<n>": a new
